@@ -105,7 +105,7 @@ func (p *ProcessConfig) Compare(another *ProcessConfig) bool {
 		!reflect.DeepEqual(p.LivenessProbe, another.LivenessProbe) ||
 		!reflect.DeepEqual(p.ReadinessProbe, another.ReadinessProbe) ||
 		!reflect.DeepEqual(p.ShutDownParams, another.ShutDownParams) ||
-		!reflect.DeepEqual(p.Vars, another.Vars) ||
+		!p.Vars.equals(another.Vars) ||
 		!reflect.DeepEqual(p.Extensions, another.Extensions) ||
 		!reflect.DeepEqual(p.DependsOn, another.DependsOn) ||
 		!reflect.DeepEqual(p.RestartPolicy, another.RestartPolicy) ||
@@ -118,6 +118,22 @@ func (p *ProcessConfig) Compare(another *ProcessConfig) bool {
 
 	return true
 }
+// equals compares template variables by what they render as: a configuration that was
+// loaded from YAML and one that travelled through JSON (REST API) differ in the Go types of
+// their numbers (int vs float64) but not in their meaning.
+func (v Vars) equals(other Vars) bool {
+	if len(v) != len(other) {
+		return false
+	}
+	for name, val := range v {
+		otherVal, ok := other[name]
+		if !ok || fmt.Sprint(val) != fmt.Sprint(otherVal) {
+			return false
+		}
+	}
+	return true
+}
+
 func (p *ProcessConfig) AssignProcessExecutableAndArgs(shellConf *command.ShellConfig, elevatedShellArg string) {
 	if p.Command != "" || len(p.Entrypoint) == 0 {
 		if len(p.Entrypoint) > 0 {
